@@ -2139,12 +2139,20 @@ def infidelity(
         else:
             filter_function = pulse.get_pulse_correlation_filter_function()
 
-        if identity_idx.size and pulse.is_cached('control_matrix_pc'):
+        if identity_idx.size:
             # See above
-            control_matrix = pulse.get_pulse_correlation_control_matrix()[:, :, identity_idx]
-            filter_function = filter_function - np.einsum('gako,hbko->ghabo',
-                                                          control_matrix.conj(),
-                                                          control_matrix)
+            if pulse.is_cached('control_matrix_pc'):
+                control_matrix = pulse.get_pulse_correlation_control_matrix()[:, :, identity_idx]
+                filter_function = filter_function - np.einsum('gako,hbko->ghabo',
+                                                              control_matrix.conj(),
+                                                              control_matrix)
+            elif util.remove_float_errors(np.einsum('ajj', pulse.n_opers[idx]), pulse.d).any():
+                # Only the filter function is cached (e.g. after cleanup('greedy')); the
+                # identity component cannot be separated from it anymore.
+                raise util.CalculationError(
+                    'Pulse correlation infidelities of noise operators with nonzero trace '
+                    + 'require the pulse correlation control matrix, which is not cached.'
+                )
 
     integrand = _get_integrand(spectrum, omega, idx, which, 'fidelity',
                                filter_function=filter_function)
